@@ -71,17 +71,24 @@ func genStatement(t *rapid.T, dialect, label string) string {
 		o.MaxDepth = 1
 		inner := cleanSelect(sqlgen.Select(t, o))
 		tb := rapid.SampledFrom(boosterTables).Draw(t, label+".bt")
-		shapes := 7
+		shapes := 9
 		if dialect == sqlgen.MySQL {
-			shapes = 10 // plus the forms in which part of the statement stands in a MySQL executable comment
+			shapes = 13 // plus ON DUPLICATE KEY UPDATE and the forms in which part of the statement stands in a MySQL executable comment
 		}
 		switch rapid.IntRange(0, shapes).Draw(t, label+".shape") {
-		case 8:
+		case 12:
 			return "select a from " + tb + " /*! union " + inner + " */"
-		case 9:
-			return "select a from " + tb + " /*!50000 union " + inner + " */ "
-		case 10:
+		case 13:
+			return "insert into " + tb + " (a) values (1) on duplicate key update a = (" + inner + ")"
+		case 11:
 			return "select a /*! , (" + inner + ") */ from " + tb
+		case 9:
+			// a table read inside a row value of INSERT ... VALUES
+			return "insert into " + tb + " (a, b) values (1, (" + inner + "))"
+		case 10:
+			return "select a from " + tb + " /*!50000 union " + inner + " */ "
+		case 8:
+			return "insert into " + tb + " (a) values ((" + inner + ")), (2)"
 		case 0:
 			return "select * from (" + inner + ") as sub1"
 		case 1:
